@@ -795,6 +795,17 @@ func TestVerifC01(t *testing.T) {
 			t.Fatalf("world: %v", err)
 		}
 		emitHist(cons, 4, res5.hist.spec, res5, "script-bls-rogue-key-forged-certificates")
+		res6, err := c01FetchedBeforeProposal(cons, 7)
+		if err != nil {
+			t.Fatalf("world: %v", err)
+		}
+		if !c01FetchedFirst[cons] {
+			v.Oracle(false, "harness:fetched-before-proposal-script-block-not-in-store-before-its-proposal:"+cons, "replica 2 did not hold d when its proposal arrived", nil)
+		}
+		if len(res6.commits["r1n0"]) < 2 {
+			v.Oracle(false, "harness:fetched-before-proposal-script-does-not-reach-the-commit:"+cons, fmt.Sprintf("replica 1 committed %v", res6.commits["r1n0"]), nil)
+		}
+		emitHist(cons, 4, res6.hist.spec, res6, "script-block-fetched-before-its-proposal")
 		res2, err := c01StaleQCLeader(cons, 7)
 		if err != nil {
 			t.Fatalf("world: %v", err)
@@ -1810,6 +1821,138 @@ func c01StaleLockDeep(cons string, seed int64) (*c01Result, error) {
 	send(e, h1)
 	// the fork below b, justified by the old QC(a), for h2 and h3 (the lost requests were transient)
 	w.fetchDeny = nil
+	newview(qc, h3)
+	newview(qd, h3, h2)
+	f := mk(5, a.Hash(), qa)
+	send(f, h2, h3)
+	parent := f
+	q, okf := certify(f)
+	for v := 6; v <= 9 && okf; v++ {
+		nb := mk(hotstuff.View(v), parent.Hash(), q)
+		send(nb, h2, h3)
+		q, okf = certify(nb)
+		parent = nb
+	}
+	return c01Finish(h, live, 0), nil
+}
+
+// c01FetchedBeforeProposal: a voter holds the lock the rules give it for the block it votes for, however
+// the block entered its store. Replicas 1..3 process a <- b <- c. Replica 2 then obtains d (view 4) by
+// FETCH before d's proposal arrives: the leader's own vote for d reaches it first, is deferred until the
+// next proposal event (a replay of c, rejected) and then makes it fetch d. The proposal for d follows;
+// replica 2 votes for it, and its lock must move to b exactly as if the block had been new. QC(d) lets
+// replica 1 commit b. A replica 2 whose lock stayed on a votes, with replica 3 (which never saw d), for
+// the fork f below b, and f is committed next to the committed b.
+var c01FetchedFirst = map[string]bool{}
+
+func c01FetchedBeforeProposal(cons string, seed int64) (*c01Result, error) {
+	spec := wSpec{consensus: cons, n: 4, byz: []hotstuff.ID{4}, seed: seed}
+	for i := 0; i < 20; i++ {
+		spec.leaders = append(spec.leaders, 4)
+	}
+	w, err := newWorld(spec)
+	if err != nil {
+		return nil, err
+	}
+	h := newC01Hist(w, spec)
+	B := w.nodes[NodeID{ReplicaID: 4}]
+	h1, h2, h3 := w.nodes[NodeID{ReplicaID: 1}], w.nodes[NodeID{ReplicaID: 2}], w.nodes[NodeID{ReplicaID: 3}]
+	live := []*wNode{h1, h2, h3}
+	for _, id := range w.order {
+		w.partition[id] = 0
+	}
+	flush := func() {
+		for guard := 0; len(w.pending) > 0 && guard < 10000; guard++ {
+			m := w.pending[0]
+			w.pending = w.pending[1:]
+			to := w.nodes[m.to]
+			if to.byz {
+				w.byzHandle(to, m.payload)
+				h.observe(nil)
+				continue
+			}
+			if p, ok := m.payload.(hotstuff.ProposeMsg); ok {
+				w.regProposal(&p)
+			}
+			to.eventLoop.AddEvent(m.payload)
+			w.drain(to)
+			h.observe(to)
+		}
+	}
+	k := 0
+	mk := func(view hotstuff.View, parent hotstuff.Hash, qc hotstuff.QuorumCert) *hotstuff.Block {
+		k++
+		b := hotstuff.NewBlock(parent, qc, &clientpb.Batch{Commands: []*clientpb.Command{{ClientID: 99, SequenceNumber: uint64(k), Data: []byte("byz")}}}, view, 4)
+		w.regBlock(b)
+		B.blockchain.Store(b)
+		return b
+	}
+	send := func(b *hotstuff.Block, to ...*wNode) {
+		for _, nd := range to {
+			w.byzSendTo(B, nd, hotstuff.ProposeMsg{ID: 4, Block: b})
+		}
+		flush()
+	}
+	newview := func(qc hotstuff.QuorumCert, to ...*wNode) {
+		for _, nd := range to {
+			w.byzSendTo(B, nd, hotstuff.NewViewMsg{ID: 4, SyncInfo: hotstuff.NewSyncInfoWith(qc), FromNetwork: true})
+		}
+		flush()
+	}
+	certify := func(b *hotstuff.Block) (hotstuff.QuorumCert, bool) {
+		if pc, err := B.auth.CreatePartialCert(b); err == nil {
+			B.votesSeen[b.Hash()] = append(B.votesSeen[b.Hash()], pc)
+		}
+		w.byzAssemble(B)
+		h.observe(nil)
+		for _, q := range w.qcs {
+			if q.BlockHash() == b.Hash() {
+				return q, true
+			}
+		}
+		return hotstuff.QuorumCert{}, false
+	}
+	gen := hotstuff.GetGenesis()
+	genQC := B.viewStates.HighQC()
+	// views 1..3: everybody processes a <- b <- c
+	a := mk(1, gen.Hash(), genQC)
+	send(a, h1, h2, h3)
+	qa, oka := certify(a)
+	if !oka {
+		return c01Finish(h, live, 0), nil
+	}
+	b := mk(2, a.Hash(), qa)
+	send(b, h1, h2, h3)
+	qb, okb := certify(b)
+	if !okb {
+		return c01Finish(h, live, 0), nil
+	}
+	c := mk(3, b.Hash(), qb)
+	send(c, h1, h2, h3)
+	qc, okc := certify(c)
+	if !okc {
+		return c01Finish(h, live, 0), nil
+	}
+	d := mk(4, c.Hash(), qc)
+	// the leader's own vote for d reaches h2 before d does; it is deferred until the next proposal
+	// event (the replayed c) and then makes h2 fetch d
+	if pc, err := B.auth.CreatePartialCert(d); err == nil {
+		w.byzSendTo(B, h2, hotstuff.VoteMsg{ID: 4, PartialCert: pc})
+		flush()
+	}
+	send(c, h2)
+	_, fetched := h2.blockchain.LocalGet(d.Hash())
+	c01FetchedFirst[cons] = fetched
+	// now the proposal: h1 and h2 (and the leader) certify d; h3 never sees it
+	send(d, h1, h2)
+	qd, okd := certify(d)
+	if !okd {
+		return c01Finish(h, live, 0), nil
+	}
+	// only h1 sees e: it commits a, b
+	e := mk(5, d.Hash(), qd)
+	send(e, h1)
+	// the fork below b, justified by the old QC(a), for h2 and h3
 	newview(qc, h3)
 	newview(qd, h3, h2)
 	f := mk(5, a.Hash(), qa)
